@@ -170,8 +170,11 @@ CONFIG = {
         "jobs": [buffree("C01", 12000, 600000), bufstep("C01", 24000, 800000)],
     },
     "C02": {
-        "rule": BUF_MODEL + "non-trivial = a rollback of >=2 uncommitted values followed by a re-read, or a Range ended by a callback panic; distinct = hash of the executed op trace." + BUF_FREE,
-        "jobs": [buffree("C02", 12000, 600000), bufstep("C02", 24000, 800000)],
+        "rule": BUF_MODEL + "non-trivial = a rollback of >=2 uncommitted values followed by a re-read, or a Range ended by a callback panic; distinct = hash of the executed op trace." + BUF_FREE +
+                " Plus conslin: 2-3 goroutines sharing ONE consumer (Get/Commit/Rollback/Diff scripts) with a concurrent producer; the recorded history is checked for linearizability "
+                "against the sequential (put, committed, uncommitted) model by porcupine; non-trivial = operations of different goroutines overlapped.",
+        "jobs": [{"name": "conslin", "test": "TestConsLin", "checks": {"quick": 30000, "thorough": 1500000}, "shards": {"quick": 6, "thorough": 16}, "stall_sig": "C02/stall"},
+                 buffree("C02", 12000, 600000), bufstep("C02", 24000, 800000)],
     },
     "C03": {
         "rule": BUF_MODEL + "non-trivial = >=1 eviction while a consumer was open AND (a lagging consumer was observed OR uncommitted reads existed at eviction time); distinct = hash of the executed op trace. "
